@@ -219,6 +219,7 @@ package promise
 //@ ghostmap runner: ref -> ref owned
 //@ ghostmap cbres: ref -> int once
 //@ ghostmap cbval: ref -> any shared
+//@ ghostmap okseen: ref -> bool local
 //
 //@ object Once
 //@   props C16 C13
@@ -269,3 +270,6 @@ package promise
 //@   ghost callbackret 1: cbval(prom) := ret0
 //@   ghost callbackret 1: cbres(prom) := ite(ret1 == nil, 1, 2)
 //@   ghost callbackret 1: runner(prom) := nil
+//@   assume okseen0: !okseen(prom)
+//@   ghost invoke Err: okseen(prom) := ret == nil
+//@   assert call SetResult: pubcancel: arg2 == nil || arg2 == context.Canceled || okseen(prom)
